@@ -986,6 +986,39 @@ fn run_raw(sink: Sink, cap: usize, writes: &[u32], obs: &Rc<RefCell<Obs>>) -> Re
                 _ => {}
             }
         }
+        Sink::IoWriter => {
+            // the io adapter over a device with `cap` bytes of room: a write_all succeeds iff everything offered so far fits;
+            // a failing one leaves the device full (it takes what fits); an EMPTY write_all always succeeds and never
+            // reaches the device as an error
+            let budget = 4 * bufs.len() as u64 + 2 * cap as u64 + 64;
+            let core = SinkCore::new(Vec::new(), Some(cap), budget, obs.clone());
+            core.borrow_mut().full_mode = if writes.len() % 2 == 0 { FullMode::Error } else { FullMode::Zero };
+            let mut w = Writer::new(SimSink(core.clone()));
+            let mut stream: Vec<u8> = Vec::new();
+            let mut taken = 0usize;
+            for (i, b) in bufs.iter().enumerate() {
+                let ok = w.write_all(b).is_ok();
+                let fits = taken + b.len() <= cap;
+                stream.extend_from_slice(b);
+                if ok != fits {
+                    fail!("raw_write_model", "io_writer cap={cap}: write_all #{i} of {} bytes with {} bytes of room left returned {}", b.len(), cap - taken, if ok { "Ok" } else { "Err" });
+                }
+                if fits {
+                    taken += b.len();
+                } else {
+                    // the device took what fitted of this and every later buffer's stream position is gone: stop here
+                    let c = core.borrow();
+                    if c.data.len() > cap || c.data[..] != stream[..c.data.len()] {
+                        fail!("raw_write_model", "io_writer cap={cap}: after the failed write_all #{i} the device content is not a prefix of what was written");
+                    }
+                    break;
+                }
+                let c = core.borrow();
+                if c.data[..] != stream[..] {
+                    fail!("raw_write_model", "io_writer cap={cap}: after write_all #{i} the device content differs from what was written");
+                }
+            }
+        }
         _ => {}
     }
     canaries_ok(&backing, cap, k)?;
@@ -1183,7 +1216,7 @@ impl Property for P13 {
         // one fixed long history on one Encoder (300 small integers): counters per call on the encoder
         out.push(C13::Encode { values: (0..300u64).map(|i| ValSpec { ty: if i % 2 == 0 { Ty::U16 } else { Ty::Str }, size: (i % 3) as u32, seed: i }).collect(), sink: None, cap: None, io_seed: 5 });
         // raw histories: every (cap, single write length 0..=cap+1) and every pair, for small caps
-        for sink in [Sink::Slice, Sink::SliceCursor, Sink::ArrayCursor, Sink::BoxCursor] {
+        for sink in [Sink::Slice, Sink::SliceCursor, Sink::ArrayCursor, Sink::BoxCursor, Sink::IoWriter] {
             for cap in 0..=6u32 {
                 for a in 0..=cap + 1 {
                     out.push(C13::Raw { sink, cap, writes: vec![a] });
@@ -1215,7 +1248,7 @@ impl Property for P13 {
             return C13::Regrow { cap, new_cap, at: r.below(n as u64 + 1) as u32, writes };
         }
         if r.chance(1, 5) {
-            let sink = *r.pick(&[Sink::Slice, Sink::SliceCursor, Sink::ArrayCursor, Sink::BoxCursor]);
+            let sink = *r.pick(&[Sink::Slice, Sink::SliceCursor, Sink::ArrayCursor, Sink::BoxCursor, Sink::IoWriter]);
             let cap = if sink == Sink::ArrayCursor { r.below(73) as u32 } else { r.below(200) as u32 };
             let n = r.usize_in(1, 12);
             let writes = (0..n)
